@@ -632,13 +632,16 @@ impl UnstableBlocks {
 //@|         && final(blocks).tree == old(blocks).tree.children@[stable_child_spec(old(blocks)).unwrap()]
 //@|         && final(blocks).stability_threshold == old(blocks).stability_threshold
 //@|         && final(blocks).network == old(blocks).network,
+//@ loopbefore 1
+//@| // the loop releases cached outpoints only: the announced headers and the block bodies are whatever they were when it began
+//@| let ghost vp_nbh0 = blocks.next_block_headers; let ghost vp_bodies0 = blocks.vp_bodies;
 //@ loop 1 binder=itb
 //@| invariant
 //@|     blocks.tree == old(blocks).tree.children@[stable_child_idx as int],
 //@|     tree.root == old(blocks).tree.root,
 //@|     blocks.stability_threshold == old(blocks).stability_threshold, blocks.network == old(blocks).network,
-//@|     blocks.next_block_headers == old(blocks).next_block_headers,
-//@|     blocks.vp_bodies == old(blocks).vp_bodies,
+//@|     blocks.next_block_headers == vp_nbh0,
+//@|     blocks.vp_bodies == vp_bodies0,
 //@|     tree.distinct(), forall|h: BlockHash| #[trigger] tree.contains(h) <==> (old(blocks).tree.contains(h) && !old(blocks).tree.children@[stable_child_idx as int].contains(h)),
 //@ rewrite R7 "tree\.into_root_and_remove_from_cache\(\)" => "tree.into_root_and_remove_from_cache(&mut blocks.vp_bodies)"
 //@ after "std::mem::swap(&mut tree, &mut blocks.tree);"
